@@ -108,6 +108,41 @@ RigidBody == (Evaluated /\ req.size = 0 /\ def.model \in {"plate", "plate_w"} /\
                \A i \in 1..N_ : RIsZero(MVec(OutVals, RigidVec(def, dof))[i])
         /\ req.q = "kM" =>
                Quad(OutVals, RigidVec(def, dof)) = RMul(RMul(def.mu, def.h), RMul(def.a, RSub(def.y2, def.y1)))
+(* reference-surface invariance (C04): the same motion described from the mid-plane and from a surface
+   at distance d has amplitudes related by  u_mid = u_ref - d w,x ,  v_mid = v_ref - d w,y ,  w unchanged.
+   On the unrestrained basis (which contains the derivatives of its own w functions) this is a rational
+   matrix Tr(d), and  Tr(d)^T K(offset 0) Tr(d) = K(offset d)  for the stiffness (laminate B = d A,
+   D = D0 + d^2 A) and the mass matrix alike -- so frequencies cannot move with d. *)
+BasisMat(n) == Fn([p \in 1..n |-> Fn([k \in 1..n |-> PCoef(D(k-1, 0), p)])])      \* column k = coefficients of f_(k-1)
+DerivCoefs(i, n) == Solve(BasisMat(n), Fn([p \in 1..n |-> PCoef(D(i, 1), p)]))      \* f_i' = SUM_k alpha_k f_k
+RefShift(d0, dist) ==
+    LET N == Size(d0)
+        ax == Fn([i \in 0..(d0.m-1) |-> DerivCoefs(i, d0.m)])
+        ay == Fn([j \in 0..(d0.n-1) |-> DerivCoefs(j, d0.n)])
+        entry(r, c) ==          \* amplitude r of the mid-plane description per unit amplitude c of the reference one
+            IF r = c THEN ROne
+            ELSE IF DofOf(d0, c) # W THEN RZero
+            ELSE IF DofOf(d0, r) = U /\ JOf(d0, r) = JOf(d0, c)
+                 THEN RNeg(RMul(dist, RMul(RDiv(Two, d0.a), ax[IOf(d0, c)][IOf(d0, r) + 1])))
+            ELSE IF DofOf(d0, r) = V /\ IOf(d0, r) = IOf(d0, c)
+                 THEN RNeg(RMul(dist, RMul(RDiv(Two, d0.b), ay[JOf(d0, c)][JOf(d0, r) + 1])))
+            ELSE RZero
+    IN Fn([r \in 1..N |-> Fn([c \in 1..N |-> entry(r, c)])])
+ZeroOffsetDef(d) ==     \* the same homogeneous wall described from its mid-plane
+    [d EXCEPT !.off = RZero,
+              !.F = Fn([p \in 1..6 |-> Fn([q \in 1..6 |->
+                        IF p <= 3 /\ q <= 3 THEN d.F[p][q]
+                        ELSE IF p > 3 /\ q > 3 THEN RSub(d.F[p][q], RMul(RMul(d.off, d.off), d.F[p-3][q-3]))
+                        ELSE RZero])])]
+Homogeneous(d) == \A p \in 1..3, q \in 1..3 : d.F[p][q+3] = RMul(d.off, d.F[p][q])     \* B = d A: one material
+ReferenceSurfaceInvariance ==
+    (Evaluated /\ req.size = 0 /\ req.q \in {"k0", "kM"} /\ def.model = "plate" /\ AllFree(def) /\ Homogeneous(def)
+     /\ def.m >= 4 /\ def.n >= 4 /\ ~RIsZero(def.off) /\ def.Ncte = <<RZero, RZero, RZero>> /\ Deviations = {}) =>
+        LET d0 == ZeroOffsetDef(def)
+            Tr == RefShift(d0, def.off)
+            K0m == Vals(QuantityDev(d0, req, {}))
+        IN OutVals = MMul(MT(Tr), MMul(K0m, Tr))
+
 (* aerodynamics: with w restrained on the upstream/downstream edges the flow-derivative part is
    skew-symmetric, the curvature and damping parts symmetric; everything linear in its coefficient *)
 FlowRestrained(d, flow) == LET f == d.fl[W][IF flow = "x" THEN 1 ELSE 2] IN RIsZero(f[1]) /\ RIsZero(f[3])
